@@ -1,16 +1,18 @@
 /-
   C07 with the ttl pass switched on — the compaction of an engine WITHOUT native ttl (TiKV), whose worker also
   expires Events (`worker.compactIfExpired`, scanner.go): timeout revision `T ≠ 0`, `supportTTL = false`.
-  Model: `KB.passLoop` / `KB.passRun` — the worker loop as it runs, record by record, every delete call executed
-  against the live store under an arbitrary failure mask before the next record is looked at (what the versions of
-  an expired Event are in for depends on the OUTCOME of the compare-and-delete of its revision record:
-  `liveEventRawKey`). A crash after n delete calls is the mask that fails every call from n on.
+  Model: `KB.passLoop` / `KB.passRun` — the worker loop as it runs, record by record, every call executed against
+  the live store under an arbitrary failure mask before the next record is looked at (what the versions of an expired
+  Event are in for depends on the OUTCOME of the expiry batch made at its revision record — since /repo 74218cc ONE
+  write batch: compare-and-delete of the record + deletes of the versions the snapshot shows —: `goneEventRawKey` /
+  `liveEventRawKey`). A crash after n calls is the mask that fails every call from n on.
 
   What is proved, for every sorted store, every `R`, every `T ≠ 0`, every mask:
   * a key that is not an Event, or an Event whose revision record names a revision above `T` (its newest change is
-    younger than the ttl), or an Event whose revision record the pass did not remove (its compare-and-delete
+    younger than the ttl), or an Event whose revision record the pass did not remove (its expiry batch
     failed, whatever the class of the failure): every read at every revision ≥ R is unchanged, point and range,
     and what the pass removed of it is what the ordinary compaction rules remove;
+  * all-or-nothing under every mask / crash point and "every key stays writable": `KB.Props.C07Atomic`;
   * the refutation of the rule as it was before "fix: the ttl pass spares the versions of an Event whose revision
     record is not expired" (`old_ttl_pass_removes_live_version`).
   In the real code `T` is the revision of an earlier compaction mark (`getTimeoutRevision`), so `T ≤ R` as long as
@@ -127,24 +129,27 @@ theorem expired_index_failure_spares_versions (i : Rec) (hi : i ∈ recs) (hi0 :
 end
 
 /-- **Wholly.** An EXPIRED Event — revision record and every version at or below the timeout revision — in a pass
-all of whose delete calls succeed: revision record and versions are gone together; the key reads absent at every
-revision and has no record left (so it can be created again). -/
+all of whose calls succeed: revision record and versions are gone together (in ONE engine call when the revision
+record is there: `KB.C07Atomic`); the key reads absent at every revision and has no record left (so it can be created
+again). (`hmax`: `expireEvent` iterates the versions below revision `MaxUint64`; no revision that large is ever
+dealt.) -/
 theorem expired_key_removed_wholly {recs : List Rec} (hs : SortedRecs recs) (hw : WellKeyed recs)
     (hk : ∀ r ∈ recs, Alphabet r.key ∧ r.rev < 2 ^ 64)
     (c : WCfg) (httl : c.supportTTL = false) (hT : c.timeout ≠ 0)
     (mask : Nat → DelOutcome) (hok : ∀ i, mask i = .ok) (k : Bytes) (hev : isEventKey c k = true)
     (hidx : ∀ i ∈ recs, i.key = k → i.rev = 0 → 8 ≤ i.val.length ∧ fromBE (i.val.take 8) ≤ c.timeout)
-    (hver : ∀ w ∈ recs, w.key = k → w.rev ≤ c.timeout) :
+    (hver : ∀ w ∈ recs, w.key = k → w.rev ≤ c.timeout)
+    (hmax : ∀ w ∈ recs, w.key = k → w.rev < 2 ^ 64 - 1) :
     (∀ w ∈ recs, w.key = k → (finalStore c mask recs).get w.ik = none) ∧
     (∀ w ∈ after c mask recs, w.key ≠ k) ∧ ∀ R', readAt R' (after c mask recs) k = none := by
   have hgone : ∀ w ∈ recs, w.key = k → (finalStore c mask recs).get w.ik = none := by
     have hk0 : k ≠ [] := by
       intro h0
       rw [h0, isEventKey_nil] at hev; cases hev
-    apply pass_removes_expired hs hw hk httl hT hok hev hidx hver recs [] {} []
+    apply pass_removes_expired hs hw hk httl hT hok hev hidx hver hmax recs [] {} [] []
       { store := encodeStore recs, lastFailed := [] } rfl
-    exact ⟨rfl, encodeStore_sorted hs hk, fun _ h => by simp at h,
-      fun w hwm _ => by rw [hw w hwm]; exact encodeStore_get hs hk hwm, fun h => hk0 h.symm, by decide⟩
+    exact ⟨rfl, encodeStore_sorted hs hk, by decide, .inr ⟨fun _ h => by simp at h,
+      fun w hwm _ => by rw [hw w hwm]; exact encodeStore_get hs hk hwm, fun h => hk0 h.symm, fun h => hk0 h.symm⟩⟩
   have hnot : ∀ w ∈ after c mask recs, w.key ≠ k := by
     intro w hwa hwk
     have := List.mem_filter.1 hwa
@@ -158,49 +163,47 @@ theorem expired_key_removed_wholly {recs : List Rec} (hs : SortedRecs recs) (hw 
     simp [hnot w hwa]
   rw [this]; rfl
 
-/-! ### one step: a failed compare-and-delete of an expired revision record is remembered -/
+/-! ### one step: a failed expiry batch is remembered -/
 
-/-- `compactCurrent` returns an error exactly when it made a call and the call did not remove the record: the engine
+/-- `expireEvent` returns an error exactly when it made the call and the call did not remove the Event: the engine
 answered with an error — of the failed-condition class or any other — or the record under the iterator had changed. -/
-theorem delcurErr_iff (mask : Nat → DelOutcome) (st : CompState) (ik v raw : Bytes) :
-    delcurErr mask st ik v raw = true ↔
+theorem expireErr_iff (mask : Nat → DelOutcome) (st : CompState) (ik v raw : Bytes) :
+    expireErr mask st ik v raw = true ↔
       ¬ (st.lastFailed ≠ [] ∧ st.lastFailed = raw) ∧
       (mask st.calls = .fail ∨ mask st.calls = .failCas ∨ st.store.get ik ≠ some v) := by
-  unfold delcurErr
+  unfold expireErr
   by_cases h1 : st.lastFailed = [] <;> by_cases h2 : st.lastFailed = raw <;>
     cases hm : mask st.calls <;> simp [h1, h2, List.length_pos_iff]
 
-/-- The worker loop at the expired revision record `r` of an Event whose compare-and-delete returns an error: the
-record stays, the key is remembered (`liveEventRawKey`), and from then on `compactIfExpired` answers "not expired"
-for EVERY version of that key — they are left to the ordinary rules. -/
-theorem failed_index_delete_is_remembered (c : WCfg) (mask : Nat → DelOutcome) (p : Prev) (live : Bytes)
-    (st : CompState) (r : Rec) (rs : List Rec) (hidx : expiry c live r = .idx)
-    (herr : delcurErr mask st r.ik r.val r.key = true) :
-    (runDelete mask st (.delcur r.ik r.val r.key)).store = st.store ∧
-    passLoop c mask p live st (r :: rs) =
-      (.delcur r.ik r.val r.key :: (passLoop c mask p r.key (runDelete mask st (.delcur r.ik r.val r.key)) rs).1,
-       (passLoop c mask p r.key (runDelete mask st (.delcur r.ik r.val r.key)) rs).2) ∧
-    ∀ w : Rec, w.key = r.key → w.rev ≠ 0 → expireStep c r.key w = none := by
+/-- The worker loop at the expired revision record `r` of an Event whose expiry batch returns an error: NOTHING of
+the Event is removed (revision record and versions are one batch), the key is remembered (`liveEventRawKey`), and
+from then on `compactIfExpired` answers "not expired" for EVERY version of that key — they are left to the ordinary
+rules. -/
+theorem failed_index_delete_is_remembered (c : WCfg) (mask : Nat → DelOutcome) (snap : List Rec) (p : Prev)
+    (live gone : Bytes) (st : CompState) (r : Rec) (rs : List Rec) (hidx : expiry c live gone r = .idx)
+    (herr : expireErr mask st r.ik r.val r.key = true) :
+    (runExpire mask st r.ik r.val (versionsOf r.key snap) r.key).store = st.store ∧
+    passLoop c mask snap p live gone st (r :: rs) =
+      (.expire r.ik r.val (versionsOf r.key snap) r.key ::
+        (passLoop c mask snap p r.key gone (runExpire mask st r.ik r.val (versionsOf r.key snap) r.key) rs).1,
+       (passLoop c mask snap p r.key gone (runExpire mask st r.ik r.val (versionsOf r.key snap) r.key) rs).2) ∧
+    ∀ w : Rec, w.key = r.key → w.rev ≠ 0 → gone ≠ r.key → expireStep c r.key gone snap w = none := by
   refine ⟨?_, ?_, ?_⟩
-  · unfold delcurErr at herr
-    simp only [Bool.and_eq_true, Bool.not_eq_true', Bool.or_eq_true, bne_iff_ne, ne_eq] at herr
-    simp only [runDelete, herr.1]
-    cases hm : mask st.calls with
-    | ok =>
-      rcases herr.2 with h | h
-      · exact absurd hm h
-      · simp [h]
-    | fail => rfl
-    | failCas => rfl
+  · rcases runExpire_cases mask st r.ik r.val (versionsOf r.key snap) r.key with ⟨_, _, h⟩ | ⟨_, h, _⟩ | ⟨_, _, h, _⟩
+    · rw [h] at herr; cases herr
+    · rw [h] at herr; cases herr
+    · exact h
   · rw [passLoop_cons, hidx]
     simp only [herr, if_true]
-  · intro w hwk hw0
+  · intro w hwk hw0 hg
     unfold expireStep
-    rcases expiry_cases c r.key w with h0 | ⟨_, _, _, ⟨_, h, _⟩ | ⟨_, h, _, _⟩ | ⟨_, h, _, _⟩ | ⟨_, _, _, h⟩⟩
+    rcases expiry_cases c r.key gone w with h0 | ⟨_, _, _, ⟨_, h, _⟩ | ⟨_, h, _, _⟩ | ⟨_, h, _, _⟩ | ⟨_, _, h⟩ |
+        ⟨_, _, _, h, _⟩⟩
     · rw [h0]
     · exact absurd h hw0
     · exact absurd h hw0
     · exact absurd h hw0
+    · exact absurd (hwk ▸ h).symm hg
     · exact absurd hwk h
 
 /-! ### the rule as it was before the fix -/
@@ -279,10 +282,12 @@ def exOld : List Rec :=
 example : SortedRecs exOld ∧ WellKeyed exOld := by decide
 example : isEventKey exCfg exE = true ∧
     (∀ i ∈ exOld, i.key = exE → i.rev = 0 → 8 ≤ i.val.length ∧ fromBE (i.val.take 8) ≤ exCfg.timeout) ∧
-    (∀ w ∈ exOld, w.key = exE → w.rev ≤ exCfg.timeout) := by decide
-/-- all deletes succeed: revision record and both versions go together -/
+    (∀ w ∈ exOld, w.key = exE → w.rev ≤ exCfg.timeout) ∧ (∀ w ∈ exOld, w.key = exE → w.rev < 2 ^ 64 - 1) := by decide
+/-- all calls succeed: revision record and both versions go together — in one call -/
+example : (passRun exCfg (fun _ => .ok) { store := encodeStore exOld } exOld).2.trace =
+    [.expire (encode exE 0) 2] := by decide
 example : (after exCfg (fun _ => .ok) exOld).map (fun r => (r.key, r.rev)) = [(exN, 0), (exN, 6)] := by decide
-/-- the compare-and-delete of the revision record (call 0) fails with a failed-condition error: nothing expires; the
+/-- the expiry batch (call 0) fails with a failed-condition error: nothing expires; the
 version at 3, superseded by the one at 4 ≤ 7, is compacted by the ordinary rule; reads at ≥ 7 see `[2]` as before -/
 example : (after exCfg (fun i => if i = 0 then .failCas else .ok) exOld).map (fun r => (r.key, r.rev)) =
     [(exE, 0), (exE, 4), (exN, 0), (exN, 6)] := by decide
@@ -291,11 +296,12 @@ example : fromBE ((be64 4).take 8) ≤ exCfg.timeout ∧
     (finalStore exCfg (fun i => if i = 0 then .failCas else .ok) exOld).get (encode exE 0) ≠ none := by decide
 /-- … with any other error the key is also the `lastCompactFailedRawKey`: nothing of it is touched -/
 example : after exCfg (fun i => if i = 0 then .fail else .ok) exOld = exOld := by decide
-/-- the OLD rule with the same failed-condition error removed both versions and left the revision record behind -/
+/-- the rule BEFORE 8442634 with the same failed-condition error (on the compare-and-delete of the revision record,
+a call of its own then) removed both versions and left the revision record behind -/
 example : (afterOld exCfg (fun i => if i = 0 then .failCas else .ok) exOld).map (fun r => (r.key, r.rev)) =
     [(exE, 0), (exN, 0), (exN, 6)] := by decide
-example : expiry exCfg [] { key := exE, rev := 0, val := be64 4, ik := encode exE 0 } = .idx ∧
-    delcurErr (fun i => if i = 0 then .failCas else .ok) { store := encodeStore exOld } (encode exE 0) (be64 4) exE = true := by
+example : expiry exCfg [] [] { key := exE, rev := 0, val := be64 4, ik := encode exE 0 } = .idx ∧
+    expireErr (fun i => if i = 0 then .failCas else .ok) { store := encodeStore exOld } (encode exE 0) (be64 4) exE = true := by
   decide
 
 end KB.C07Expire
@@ -307,6 +313,6 @@ end KB.C07Expire
 #print axioms KB.C07Expire.compact_preserves_scan
 #print axioms KB.C07Expire.expired_index_failure_spares_versions
 #print axioms KB.C07Expire.expired_key_removed_wholly
-#print axioms KB.C07Expire.delcurErr_iff
+#print axioms KB.C07Expire.expireErr_iff
 #print axioms KB.C07Expire.failed_index_delete_is_remembered
 #print axioms KB.C07Expire.old_ttl_pass_removes_live_version
